@@ -34,20 +34,20 @@ abbrev DN := List String
 
 inductive NState where
   | new | healthy | dead | done | canceled
-deriving DecidableEq, Repr
+deriving DecidableEq, Hashable, Repr
 
 /-- What a runnable goroutine handed to `processDied`: `nil`, an error whose innermost cause is
 `context.Canceled` (the only value `ctx.Err()` takes here: no deadlines are used), anything else
 (a panic is reported as an error of this kind). -/
 inductive ErrKind where
   | nil | ctx | other
-deriving DecidableEq, Repr
+deriving DecidableEq, Hashable, Repr
 
 inductive Panic where
   | nodeByDN      -- "could not find … in …"
   | signal        -- "node … signaled healthy/done" in the wrong state
   | nilDeref      -- group member without a child record (unreachable on well-formed trees)
-deriving DecidableEq, Repr
+deriving DecidableEq, Hashable, Repr
 
 structure Node where
   dn : DN
@@ -62,7 +62,7 @@ structure Node where
   groups : List (List String)
   /-- ghost: incarnation number, fresh at `newNode` / `reset` (stands for the identity of `n.ctx`). -/
   inc : Nat
-deriving DecidableEq, Repr
+deriving DecidableEq, Hashable, Repr
 
 abbrev Tree := List Node
 
@@ -70,7 +70,7 @@ abbrev Tree := List Node
 structure Params where
   initial : Nat := 500000000
   max : Nat := 60000000000
-deriving DecidableEq, Repr
+deriving DecidableEq, Hashable, Repr
 
 /-- `incrementCurrentInterval`: `if float64(cur) >= float64(Max)/1.5 then Max else Duration(float64(cur)*1.5)`
 (exact in float64 below 2^52 ns). -/
@@ -98,7 +98,7 @@ def validName (s : String) : Bool :=
 
 inductive Signal where
   | healthy | done
-deriving DecidableEq, Repr
+deriving DecidableEq, Hashable, Repr
 
 /-- `Signal(ctx, s)` = `fromContext` (→ `nodeByDN`) then `(*node).signal`. -/
 def signal (P : Params) (t : Tree) (dn : DN) (sg : Signal) : Except Panic Tree :=
@@ -233,13 +233,13 @@ structure Inst where
   iid : Nat
   dn : DN
   inc : Nat
-deriving DecidableEq, Repr
+deriving DecidableEq, Hashable, Repr
 
 /-- A request some goroutine is sending (or will send after its back-off sleep) on `pReq`. -/
 inductive Req where
   | sched (dn : DN)
   | died (dn : DN) (e : ErrKind)
-deriving DecidableEq, Repr
+deriving DecidableEq, Hashable, Repr
 
 def Req.dn : Req → DN
   | .sched d => d
@@ -253,7 +253,7 @@ structure Sys where
   nextIid : Nat
   /-- the processor saw `ctx.Done()`, ran `processKill` and returned. -/
   killed : Bool
-deriving DecidableEq, Repr
+deriving DecidableEq, Hashable, Repr
 
 inductive Act where
   /-- processor: takes a pending schedule request, `processSchedule` starts the goroutine. -/
@@ -270,7 +270,7 @@ inductive Act where
   | run (iid : Nat) (names : List String)
   /-- runnable `iid` returns `e` (or panics: `other`), after any latency. -/
   | ret (iid : Nat) (e : ErrKind)
-deriving DecidableEq, Repr
+deriving DecidableEq, Hashable, Repr
 
 def rootNode (P : Params) : Node :=
   { dn := [], state := .new, cancelled := false, exited := false, bo := P.initial, groups := [], inc := 0 }
